@@ -219,6 +219,10 @@ def make_pair(r, o=None):
         eb_ = {'index': idx if r.random() < 0.5 else r.randint(1, 2 ** 20), 'mode': mode, 'ipsec_proto': proto,
                'lifetime': o.get('child_lifetime', child_life()) if r.random() < 0.3 else life, 'ip_proto': ipp,
                'my_port': bp, 'peer_port': ap, 'integ': cib}
+        # indexes are unique per side (two entries sharing one would be a configuration error, not a scenario)
+        for ent, lst in ((ea_, prot_a), (eb_, prot_b)):
+            while any(x['index'] == ent['index'] for x in lst):
+                ent['index'] = r.randint(1, 2 ** 20)
         if proto == 'esp':
             ea_['encr'], eb_['encr'] = cea, ceb
         if cda:
